@@ -209,17 +209,59 @@ def rand_values(rng, shape, mapping, lateral_invariant, palette_n=4):
     return a
 
 
-def rand_model(rng, grid, mapping=None, case=None, lateral_invariant=False, layered_ok=False):
+def extreme_profile(rng, nz, mapping, fine):
+    """A column (bottom -> top) with an extreme dynamic range: the top layer is air
+    (Resistivity 2e14 / 1e12 Ohm.m, Conductivity 1e-14 / 1e-12 S/m, the logs of such values for
+    the log maps); below it ordinary values with DISTINCT neighbours (differences far below
+    1e-12 x air for Resistivity), some EQUAL neighbours (merge=True must merge exactly those) and
+    at least one NEARLY equal pair (relative difference 2^-44 .. 2^-41, with [fine] also the
+    last bits): exact equality is the documented criterion of merge, they must NOT be merged."""
+    if mapping == 'Resistivity':
+        air = rng.choice([2e14, 1e12])
+        sub = [0.3, 1.0, 1.5, 2.0, 10.0, 50.0, 80.0] if air > 1e13 else [1.0, 1.25, 1.5, 1.75, 0.875]
+    elif mapping == 'Conductivity':
+        air, sub = rng.choice([1e-14, 1e-12]), [3.0, 1.0, 0.5, 0.02, 0.1, 2.0]
+    else:
+        big = 14.25 if mapping.startswith('Lg') else 32.5
+        air = big if mapping.endswith('Resistivity') else -big
+        sub = [-0.5, 0.5, 0.25, 1.0, 1.75, -1.0]
+    prof = [rng.choice(sub)]
+    while len(prof) < nz - 1:
+        prev = prof[-1]
+        prof.append(prev if rng.random() < 0.3 else rng.choice([v for v in sub if v != prev]))
+    j = rng.randrange(nz - 2)                    # the nearly equal pair (j, j+1), both below the air
+    k = rng.choice([52, 48, 44, 41] if fine else [44, 41])
+    prof[j + 1] = float(np.nextafter(prof[j], np.inf)) if k == 52 else prof[j] + 2.0 ** -k * abs(prof[j])
+    return prof + [air]
+
+
+def rand_model(rng, grid, mapping=None, case=None, lateral_invariant=False, layered_ok=False,
+               extreme=False, nearly=False):
     import emg3d
     shape = tuple(grid.shape_cells)
     mapping = mapping or rng.choice(MAPS)
     if case is None:
         case = rng.choice(['isotropic', 'VTI'] if layered_ok else ['isotropic', 'HTI', 'VTI', 'triaxial'])
-    kw = {'property_x': rand_values(rng, shape, mapping, lateral_invariant)}
+
+    if extreme:
+        # one column for all cells; property_z = 2 x property_x (log maps: + 0.5) below the air, so
+        # that equal / nearly equal / distinct neighbours coincide in both; mu_r constant
+        case = rng.choice(['isotropic', 'VTI'])
+        prof = np.array(extreme_profile(rng, shape[2], mapping, nearly))
+        kw = {'property_x': np.zeros(shape) + prof[None, None, :]}
+        if case == 'VTI':
+            pz = prof + 0.5 if mapping.startswith('L') else prof * 2
+            pz[-1] = prof[-1]
+            kw['property_z'] = np.zeros(shape) + pz[None, None, :]
+        if rng.random() < 0.3:
+            kw['mu_r'] = np.ones(shape)
+        return emg3d.Model(grid, mapping=mapping, **kw), kw, mapping, case
+    vals = rand_values
+    kw = {'property_x': vals(rng, shape, mapping, lateral_invariant)}
     if case in ('HTI', 'triaxial'):
-        kw['property_y'] = rand_values(rng, shape, mapping, lateral_invariant)
+        kw['property_y'] = vals(rng, shape, mapping, lateral_invariant)
     if case in ('VTI', 'triaxial'):
-        kw['property_z'] = rand_values(rng, shape, mapping, lateral_invariant)
+        kw['property_z'] = vals(rng, shape, mapping, lateral_invariant)
     if rng.random() < 0.3:
         kw['mu_r'] = rand_values(rng, shape, 'Conductivity', lateral_invariant, 3)
     if rng.random() < 0.3:
@@ -321,6 +363,26 @@ def gen_extract_case(rng, thorough):
     merge = rng.random() < 0.5 and (method == 'midpoint' or li)
     return dict(hs=hs, org=org, model=model, mapping=mapping, case=case, lname=lname, method=method,
                 ellipse=ellipse, p0=p0, p1=p1, merge=merge, malformed=malformed)
+
+
+EXTREME_KINDS = [('midpoint', True), ('midpoint', False), ('prism', False), ('cylinder', False)]
+
+
+def gen_extreme_extract_case(rng, k):
+    """merge=True on a laterally invariant column with extreme dynamic range; all six maps x
+    (midpoint with last-bit neighbours, midpoint, prism, cylinder) round-robin."""
+    mapping = MAPS[k % len(MAPS)]
+    method, nearly = EXTREME_KINDS[(k // len(MAPS)) % len(EXTREME_KINDS)]
+    grid, hs, org = rand_grid(rng, (3, 3, 6), (1, 1, 3))
+    model, kw, mapping, case = rand_model(rng, grid, mapping=mapping, lateral_invariant=True,
+                                          extreme=True, nearly=nearly)
+    ellipse = None
+    if method != 'midpoint':
+        ellipse = rand_ellipse(rng, hs)
+        ellipse['radius'] = float(max(sum(hs[0]), sum(hs[1])))      # a non-empty selection
+    return dict(hs=hs, org=org, model=model, mapping=mapping, case=case, lname=mapping.startswith('L'),
+                method=method, ellipse=ellipse, p0=rand_point(rng, grid, hs, org),
+                p1=rand_point(rng, grid, hs, org), merge=True, malformed=None, extreme=True, nearly=nearly)
 
 
 def extract_case_coq(c, tag):
@@ -506,6 +568,8 @@ def run_extract_histories(ctx, n, dis, hist):
 def run_extract(ctx, n, dis, hist):
     rng = ctx.rng
     cases = [gen_extract_case(rng, ctx.thorough) for _ in range(n)]
+    cases += [gen_extreme_extract_case(rng, k) for k in range(72 if ctx.thorough else 24)]
+    n = len(cases)
     per = 20
     files = []
     for f0 in range(0, n, per):
@@ -530,6 +594,9 @@ def run_extract(ctx, n, dis, hist):
             hist['map:' + c['mapping']] = hist.get('map:' + c['mapping'], 0) + 1
             if c['merge'] and c['lname'] and np.all(c['model'].property_x[:, :, 0] == -1.0):
                 hist['extract:merge,top=-1'] = hist.get('extract:merge,top=-1', 0) + 1
+            if c.get('extreme'):
+                key = 'extract:extreme-range,merge,nearly-equal' + (',last-bits' if c['nearly'] else '')
+                hist[key] = hist.get(key, 0) + 1
             if kind not in ('err', 'bad'):
                 seen.add((kind, c['mapping'], c['case'], c['merge'], tuple(c['model'].shape)))
     samples = [dict(shape=list(c['model'].shape), mapping=c['mapping'], case=c['case'], method=c['method'],
@@ -569,8 +636,13 @@ def rand_survey(rng, grid, hs, org, nsrc, nrec, nfreq, with_data, force_relative
         srcs.append(s)
     recs = []
     sc = [s.center for s in srcs]
+    tries = 0
     while len(recs) < nrec:
+        tries += 1
         x, y, z = xy(x0, x1), xy(y0, y1), zc()
+        # small meshes: move outwards until far enough from every source
+        x += 208.0 * (tries // 4) * rng.choice([-1, 1])
+        y += 208.0 * (tries // 8)
         az, el = rng.choice([0.0, 60.0, 90.0]), rng.choice([0.0, 0.0, 90.0])
         cls = rng.choice([emg3d.RxElectricPoint, emg3d.RxElectricPoint, emg3d.RxMagneticPoint])
         relative = rng.random() < 0.35 or (force_relative and not recs)
@@ -609,20 +681,25 @@ def rand_survey(rng, grid, hs, org, nsrc, nrec, nfreq, with_data, force_relative
 SIM_METHODS = ['receiver', 'cylinder', 'source', 'prism', 'midpoint', 'cylinder']
 
 
-def gen_sim_case(rng, thorough, grad, k=0):
+def gen_sim_case(rng, thorough, grad, k=0, extreme=False):
     import emg3d
     # methods round-robin; two of three rounds on laterally varying models with >= 2 x 2 columns
-    li = (k // len(SIM_METHODS)) % 3 == 2
-    grid, hs, org = rand_grid(rng, (5, 5, 4), (1, 1, 2) if li else (2, 2, 2))
-    mapping = rng.choice(MAPS)
-    model, kw, mapping, case = rand_model(rng, grid, mapping=mapping, layered_ok=True,
-                                          lateral_invariant=li)
+    li = (k // len(SIM_METHODS)) % 3 == 2 or extreme
     method = SIM_METHODS[k % len(SIM_METHODS)]
+    single = method in ('midpoint', 'source', 'receiver')
+    if extreme:
+        # merge=True on a column with extreme dynamic range (air on top), maps round-robin
+        grid, hs, org = rand_grid(rng, (3, 3, 6), (1, 1, 3))
+        mapping = MAPS[k % len(MAPS)]
+    else:
+        grid, hs, org = rand_grid(rng, (5, 5, 4), (1, 1, 2) if li else (2, 2, 2))
+        mapping = rng.choice(MAPS)
+    model, kw, mapping, case = rand_model(rng, grid, mapping=mapping, layered_ok=True,
+                                          lateral_invariant=li, extreme=extreme, nearly=extreme and single)
     lopts = {'method': method}
     if method in ('prism', 'cylinder'):
         lopts['ellipse'] = rand_ellipse(rng, hs)
-    single = method in ('midpoint', 'source', 'receiver')
-    if (li or single) and (rng.random() < 0.4 or (grad and single and k % 2 == 0)):
+    if extreme or ((li or single) and (rng.random() < 0.4 or (grad and single and k % 2 == 0))):
         lopts['merge'] = True
     with_data = grad or rng.random() < 0.6
     survey, pattern = rand_survey(rng, grid, hs, org, rng.randint(1, 2), rng.randint(1, 3 if grad else 4),
@@ -632,7 +709,8 @@ def gen_sim_case(rng, thorough, grad, k=0):
         sim = emg3d.Simulation(survey, model, layered=True, layered_opts=lopts, max_workers=1,
                                tqdm_opts=False, gridding='same', verb=-1)
     return dict(hs=hs, org=org, model=model, mapping=mapping, case=case, lname=mapping.startswith('L'),
-                lopts=sim.layered_opts, survey=survey, sim=sim, pattern=pattern, grad=grad, li=li)
+                lopts=sim.layered_opts, survey=survey, sim=sim, pattern=pattern, grad=grad, li=li,
+                extreme=extreme)
 
 
 def sim_brief(c):
@@ -973,6 +1051,9 @@ def compare_grad(c, answers, dis):
 def run_sims(ctx, n, ngrad, dis, hist):
     rng = ctx.rng
     cases = [gen_sim_case(rng, ctx.thorough, grad=(k < ngrad), k=k) for k in range(n)]
+    cases += [gen_sim_case(rng, ctx.thorough, grad=False, k=k, extreme=True)
+              for k in range(18 if ctx.thorough else 6)]
+    n = len(cases)
     per = 4
     files = []
     # two-step histories on ONE Simulation / Model: [compute (+ misfit, gradient), edit the model
@@ -980,7 +1061,7 @@ def run_sims(ctx, n, ngrad, dis, hist):
     # the ordinary comparison below is then the second compute / misfit / gradient
     pre = {}
     for k, c in enumerate(cases):
-        if k % 2 == 0:
+        if k % 2 == 0 or c['extreme']:
             continue
         txt = sim_case_coq(c, f"p{k}")              # arrays as they are NOW
         syn = impl_compute(c)
@@ -1064,6 +1145,8 @@ def run_sims(ctx, n, ngrad, dis, hist):
                     hist['sim:merge+gradient'] = hist.get('sim:merge+gradient', 0) + 1
             if c['lname'] and np.all(c['model'].property_x[:, :, 0] == -1.0):
                 hist['sim:top=-1'] = hist.get('sim:top=-1', 0) + 1
+            if c['extreme']:
+                hist['sim:extreme-range,merge'] = hist.get('sim:extreme-range,merge', 0) + 1
             if len(dis) == nd:
                 seen.add(key)
                 okcases.append(c)
@@ -1140,7 +1223,7 @@ def search_case(seed, thorough=False, skip=()):
     import random
     import emg3d
     rng = random.Random(seed)
-    grid, hs, org = rand_grid(rng, (6, 6, 5) if thorough else (5, 5, 4), (2, 2, 2))
+    grid, hs, org = rand_grid(rng, (6, 6, 5) if thorough else (5, 5, 4), (2, 2, 3))
     mapping = rng.choice(MAPS)
     model, kw, mapping, case = rand_model(rng, grid, mapping=mapping, layered_ok=True, lateral_invariant=True)
     if mapping.startswith('L') and seed % 2 == 0:
@@ -1153,6 +1236,18 @@ def search_case(seed, thorough=False, skip=()):
         k = rng.randint(1, model.shape[2] - 1)
         for nm in model._def_properties:
             getattr(model, nm)[:, :, k] = getattr(model, nm)[:, :, k - 1]
+    if (seed // 4) % 2 == 0:
+        # extreme dynamic range: air on top (2e14 Ohm.m, 1e-14 S/m, ...), below it distinct, equal and
+        # nearly equal neighbours; property_z = 2 x property_x (log maps + 0.5), mu_r / epsilon_r constant
+        prof = np.array(extreme_profile(rng, model.shape[2], mapping, False))
+        model.property_x[:, :, :] = prof[None, None, :]
+        if model.property_z is not None:
+            pz = prof + 0.5 if mapping.startswith('L') else prof * 2
+            pz[-1] = prof[-1]
+            model.property_z[:, :, :] = pz[None, None, :]
+        for nm in ('mu_r', 'epsilon_r'):
+            if getattr(model, nm) is not None:
+                getattr(model, nm)[:, :, :] = getattr(model, nm)[0, 0, 0]
     vti = case == 'VTI'
     base = dict(seed=seed, mapping=mapping, case=case, hx=hs[0], hy=hs[1], hz=hs[2], origin=org,
                 profile_x=model.property_x[0, 0, :].tolist())
@@ -1226,6 +1321,18 @@ def search_case(seed, thorough=False, skip=()):
             return dict(base, block='extract', signature='interfaces of the extracted 1D model are not interfaces of the column '
                         'from top to bottom', method=m, merge=mg, p0=p0, p1=p1, observed_value=ln.tolist(),
                         required=grid.nodes_z.tolist())
+        if mg:
+            # documented criterion of merge: adjacent layers of IDENTICAL properties are combined --
+            # exactly those (independent oracle: runs of exactly equal neighbours in the profile)
+            cols = np.array([getattr(model, nm)[0, 0, :] for nm in model._def_properties])
+            runs = 1 + int(np.sum(np.any(cols[:, 1:] != cols[:, :-1], axis=0)))
+            if lay.shape[2] != runs:
+                return dict(base, block='extract', signature='extract_1d(merge=True) does not merge exactly the '
+                            'adjacent layers of identical properties', method=m, ellipse=e, p0=p0, p1=p1,
+                            profiles={nm: getattr(model, nm)[0, 0, :].tolist() for nm in model._def_properties},
+                            observed_value=dict(layers=int(lay.shape[2]),
+                                                property_x=lay.property_x[0, 0, :].tolist()),
+                            required=dict(layers=runs))
         idx = expand_layers(lay, grid.nodes_z)
         for nm in model._def_properties:
             got = getattr(lay, nm)[0, 0, :][idx]
